@@ -54,6 +54,7 @@ type TcAbs struct {
 	ZeroPath bool   `json:"zeropath"` // p1 carries the zero value of its kind (0, false, enum 0)
 	CompSub  bool   `json:"compsub"`  // a query key names a SUB-field of the path-bound field (wrapper .value, Timestamp/Duration .seconds)
 	Ws       bool   `json:"ws"`       // the request is a WebSocket session: rule kind WEBSOCKET, the body is the first text frame
+	ManyQ    bool   `json:"manyq"`    // fourteen further query parameters (values of a repeated field): more than a dozen parameters in all
 	Accept   string `json:"accept"`   // Accept header of the request: "" | */* | other (the codec the body is NOT in) | same
 	Framing  string `json:"framing"`  // how the request body is delimited: "" sized | unsized (HTTP/2, no content-length) | chunked (HTTP/1.1)
 }
@@ -582,6 +583,24 @@ func runTcCase(c TcAbs, seed int64) TcEv {
 				addQ("r", v.text)
 			}
 		}
+	}
+	if c.ManyQ && c.Body != "*" {
+		// a repeated field the case does not otherwise use, fourteen values in the query
+		f, mk := "ri", func(i int) val {
+			return val{text: strconv.Itoa(1000 + i), pv: protoreflect.ValueOfInt32(int32(1000 + i))}
+		}
+		if role["r"].path[0] == "ri" || !present["r"] && false {
+			f, mk = "r", func(i int) val { s := fmt.Sprintf("m%d", i); return val{text: s, pv: protoreflect.ValueOfString(s)} }
+		}
+		key := keyFor([]string{f}, c.Spell)
+		qkeys = append(qkeys, key)
+		for i := 0; i < 14; i++ {
+			v := mk(i)
+			q.Add(key, v.text)
+			setLeaf(M, []string{f}, v, true)
+		}
+	} else {
+		ev.C.ManyQ = false
 	}
 	if c.CompQ {
 		addQ("p1", comp.text)
